@@ -14,7 +14,7 @@ PROPS['C08'] = dict(
     min_tagged=40,
     trusted=[T_VERUS, T_U256, T_UINT128, T_INTO, T_DERIVE, T_OVERFLOW],
     assumptions=['bigint::U256 itself is not verified (dependency); every wrapper in packages/bignumber/src/math.rs is',
-                 'text/JSON conversions (FromStr, Display, serde) are outside this property (see C18 not applicable)'],
+                 'text/JSON conversions (FromStr, Display, serde) are outside this property (see C18)'],
     explanation='Every arithmetic function of math.rs is verified twice against the extracted text: mode B proves "if it returns, the abort-freedom condition held and the result is exactly the mathematical value (floor where the type requires)"; mode A proves "under exactly that condition the body reaches its end". Together: returns exactly on the allowed set, exact there.',
 )
 
@@ -159,3 +159,17 @@ PROPS['C03'] = dict(
                  'the ledger effect of the emitted messages (reserves after swap = (x+a, y-n); after provide = (r_i+d_i), supply+m; after withdraw = (r_i-x_i), supply-a) is chain semantics'],
     explanation='Step lemmas take as hypotheses exactly the predicates proved as postconditions of the real handlers (c01_no_overpay from compute_swap/swap, c05_fair_share from share minting/provide_liquidity, c04_bounds from withdraw_liquidity, native-funds and hook-asset checks so that the credited offer is the delivered one) and conclude that reserve0*reserve1*supply_before^2 <= reserve0\'*reserve1\'*supply_after^2... (cross-multiplied); transitivity + induction over an arbitrary finite sequence of states closes "any history". Inside the recorded compute_swap window the swap step does not hold: known finding C03-W1.',
 )
+
+T_TEXT = 'std / bigint / serde text primitives are ASSUMED over the character view (units/shim_text.rs): bigint U256::from_dec_str (all bytes ASCII digits, the empty string reads as 0, Err above 256 bits) and U256 Display (canonical numeral); str::split(char).collect, str::len (UTF-8 length = character count for ASCII), str::repeat, String + &str, str::trim_end_matches(char), Formatter::write_str / write_char (append or fail), the blanket ToString impl (fresh buffer, Display::fmt, panic on error), Result::map_err / Option::ok_or_else / usize::checked_sub (vstd), serde Serializer::serialize_str and de::Error::custom as opaque trait methods; cosmwasm_std::Decimal Display / FromStr (same canonical form / grammar, non-empty numerals, 128 bits). JSON string (de)serialisation of these ASCII texts by serde_json is the identity (dependency)'
+PROPS['C18'] = dict(
+    units=[('u_text.rs', 'B', ['text']), ('u_math.rs', 'B', None), ('u_math.rs', 'A', None)]
+          + [('u_text.rs', 'A', None, ('text', [f])) for f in ('Decimal256::from_str', 'Decimal256::fmt', 'Decimal256::to_string')],
+    min_tagged=30,
+    trusted=[T_VERUS, T_U256, T_UINT128, T_INTO, T_DERIVE, T_OVERFLOW, T_TEXT, T_R4, T_R2],
+    assumptions=['the grammar of accepted inputs is the one the repository pins: one or two dot-separated strings of ASCII digits, at most 18 fractional digits, an EMPTY part reads as zero (unit test decimal_from_str_works asserts from_str("") == 0 and from_str("1.") == 1; bigint from_dec_str reads "" as 0). The doc comment on Decimal256::from_str calls "" and ".23" disallowed: recorded as an observation in DESIGN.md, not a violation',
+                 'trait impls that cannot be implemented for shim types (FromStr, Display, TryFrom<&str>, Serialize, de::Visitor, From<Uint256> for String, From<Decimal>/<Decimal256>) are lifted to inherent / free functions by declared rewrites of the signature only; bodies are the repository text',
+                 'Deserialize::deserialize (one line handing the visitor to the deserializer) and Visitor::expecting (an error-message string) are not under contract',
+                 'through JSON = serde_json writes and reads these ASCII strings unchanged (dependency)'],
+    explanation='Function against spec function: Decimal256::from_str is proved to return Ok exactly on the accepted grammar (when it returns) with the value the text denotes (text_denotes: whole*10^18 + fraction*10^(18-len)), Err for more than 18 fractional digits or more than one dot; in the no-abort mode it is proved not to abort and to return Ok whenever the denoted value fits 256 bits. Display::fmt is proved to write exactly render_dec(value) (whole, then "." and the 18-digit fraction without trailing zeros), never aborting; to_string is that output. lemma_c18_dec_roundtrip: for every d < 2^256 the rendering is accepted, denotes d and nothing else (numeral lemmas: value of the canonical numeral, leading zeros, trimmed trailing zeros, split at the single dot) => parse(render(d)) = d, directly and through the serde impls (serialize writes render_dec, visit_str is from_str). Uint256: from_str / try_from / visit_str return the value of the digit string, Display / String::from / serialize write the canonical numeral, lemma_c18_uint_roundtrip. Width: Uint256 <-> u64 / u128 / Uint128 (narrow.* / widen.* in both modes, shared with C08) and Decimal <-> Decimal256, which math.rs implements THROUGH TEXT: proved value-preserving (or aborting when it does not fit) from the two text contracts and the round-trip lemma.',
+)
+
